@@ -91,6 +91,19 @@ def main():
             n += 1
             if (res < 0).any():
                 return dict(reproduced=True, call='safe delay simulation %r of %r from %r' % (mode, rx, x0), observed=float(res.min()), expected='>= 0')
+    # 4. safe mode in the volume simulators with several reactions: the reaction whose rate does not vanish is NOT the first one
+    for it in range(SPEC.get('rounds_volume', 8)):
+        rx = [(['A'], ['B'], 'massaction', {'k': rng.uniform(0.5, 2)}),
+              (['B'], ['A'], 'massaction', {'k': rng.uniform(0.5, 2)}),
+              (['C'], [], 'general', {'rate': 'kf'})]
+        x0 = {'A': rng.randint(2, 6), 'B': 0, 'C': rng.randint(1, 3)}
+        M = Model(species=sorted(x0), reactions=rx, parameters=[('kf', rng.uniform(2, 6))], initial_condition_dict=x0)
+        for mode in (dict(volume=1.0), dict(volume=2.0), dict(delay=True, volume=1.0)):
+            py_seed_random(rng.randint(1, 10 ** 6))
+            res = py_simulate_model(T, Model=M, stochastic=True, safe=True, return_dataframe=False, **mode).py_get_result()
+            n += 1
+            if (res < 0).any():
+                return dict(reproduced=True, call='safe volume simulation %r of %r from %r' % (mode, rx, x0), observed=float(res.min()), expected='>= 0')
     return dict(reproduced=False, evaluations=n)
 
 
